@@ -14,6 +14,7 @@ import numpy as np
 from harness.framework import cZ, cbool
 
 LEVEL = "proof"
+TRANSLATED_KERNELS = ["Spec.__eq__", "check_array_specs"]   # harness/translate.py: re-translated from /repo on every run and proved equal to Model.SpecCfg.spec_eqb / check_array_specs
 RULE = ("K: convert_to_bytes / Spec(...) on literals rendered from (sign, digits, fraction digits, exponent, unit, spacing) incl. >53-bit "
         "values, ints and floats, vs Model.SpecCfg.convert_literal (exact decimal semantics); Spec.__eq__/check_array_specs on specs "
         "drawn field by field vs the model; O: every public callable of cubed / cubed.array_api is probed with argument templates, "
